@@ -33,12 +33,39 @@ theorem C03_alg_ready_dynamic (cl : Cluster) (plan : Plan) (view : Tid → TaskV
   dynamic_ready cl plan view sched pool out h
 
 /-- GreedySchedulingFromPlan consults the ids of the cluster's finished-task map -/
+-- CORRECTED: added `hview` (a task whose `pred` list is empty has no predecessor ids).
+-- `TaskView.hasPred` and `TaskView.predIds` are independent fields, and Greedy allocates a task
+-- with `hasPred = false` without looking at `predIds`.  Counterexample without `hview`:
+--   cl := Cluster.init [0], plan := { obs := 0, tasks := [.raw 1], edges := [], est := 0 },
+--   view t := { id := t, status := .unscheduled, est := 0, hasPred := false,
+--               predIds := [.raw 0], machine := .ok 0 }, sched := [], pool := []
+-- gives schedule [(.raw 1, 0)] while `.raw 0` is not in `cl.finished` (checked with `#eval`).
+-- The views the simulation builds (`Sys.taskView`) satisfy `hview`: `C03_taskView_hasPred`.
 theorem C03_alg_ready_greedy (cl : Cluster) (plan : Plan) (view : Tid → TaskView)
+    (hview : ∀ t, (view t).hasPred = false → (view t).predIds = [])
     (sched : List (Tid × Mid)) (pool : List Tid) (out : AlgOut)
     (h : Alg.greedyRun cl plan view sched pool = .ok out) :
     ∀ p ∈ out.schedule, p ∉ sched →
       (view p.1).status = .unscheduled ∧ ∀ q ∈ (view p.1).predIds, dictHas cl.finished q = true :=
-  greedy_ready cl plan view sched pool out h
+  greedy_ready cl plan view hview sched pool out h
+
+/-- the added hypothesis holds for every view the simulation hands to an algorithm -/
+theorem C03_taskView_hasPred (s : Sys) (t : Tid) :
+    (s.taskView t).hasPred = false → (s.taskView t).predIds = [] := by
+  unfold Sys.taskView
+  split
+  · intro _; rfl
+  · intro h; simpa using h
+
+-- the counterexample to the uncorrected statement
+example :
+    let cl := Cluster.init [0]
+    let plan : Plan := { obs := 0, tasks := [.raw 1], edges := [], est := 0 }
+    let view : Tid → TaskView := fun t =>
+      { id := t, status := .unscheduled, est := 0, hasPred := false, predIds := [.raw 0], machine := .ok 0 }
+    (∃ out, Alg.greedyRun cl plan view [] [] = .ok out ∧ out.schedule = [(.raw 1, 0)]) ∧
+      dictHas cl.finished (.raw 0) = false := by
+  exact ⟨⟨_, rfl, rfl⟩, rfl⟩
 
 /-- the list handed to `do_work` is exactly the predecessors recorded on a
 different machine (none for same-machine predecessors) -/
@@ -63,6 +90,6 @@ theorem C03_no_wait_same_machine (alloc : Time) (bw : Nat) : startTime alloc bw 
 
 -- non-vacuity: allocation at 7, predecessors finished at 6 (volume 8) and 7 (volume 1), bandwidth 4
 example : startTime 7 4 [(6, 8), (7, 1)] = 8 ∧ startTime 7 4 [(6, 2)] = 7 := by
-  decide
+  decide +kernel
 
 end Topsim
